@@ -10,8 +10,8 @@ import time
 from .. import docgen, e2e
 from ..keyenc import key, unkey
 from ..runner import Check
-from ..translate import kwsites, versions
-from . import c19_kw
+from ..translate import headerflow, kwsites, versions
+from . import c19_hdr, c19_kw
 
 # ---------------------------------------------------------------- authored table (Python side, independent of
 # lean/Dcg/Model/Version.lean; the two are compared on every run). Minor version of Python 3 that first
@@ -105,6 +105,30 @@ def _generated_names() -> set:
 
 
 # ---------------------------------------------------------------- the property's oracle on one emitted module
+def future_import_state(tree: ast.Module) -> tuple[bool, int | None]:
+    """(the module has an EFFECTIVE `from __future__ import annotations`, line of the first `from __future__` import that is not
+    at the top). Future imports are only accepted after the docstring, comments and other future imports; anywhere else compile()
+    raises SyntaxError on every version."""
+    effective, misplaced, top = False, None, True
+    for i, st in enumerate(tree.body):
+        if i == 0 and isinstance(st, ast.Expr) and isinstance(st.value, ast.Constant) and isinstance(st.value.value, str):
+            continue
+        is_future = isinstance(st, ast.ImportFrom) and st.module == "__future__" and st.level == 0
+        if is_future and top:
+            effective = effective or any(a.name == "annotations" for a in st.names)
+        elif is_future:
+            misplaced = st.lineno if misplaced is None else misplaced
+        else:
+            top = False
+    if misplaced is None:
+        top_level = {id(st) for st in tree.body}
+        for n in ast.walk(tree):
+            if isinstance(n, ast.ImportFrom) and n.module == "__future__" and n.level == 0 and id(n) not in top_level:
+                misplaced = n.lineno
+                break
+    return effective and misplaced is None, misplaced
+
+
 def oracle_module(code: str, kind: str, minor: int) -> list[tuple[dict, str]]:
     """[(classification, observed)] — what this module needs that Python 3.<minor> does not provide"""
     out: list[tuple[dict, str]] = []
@@ -115,9 +139,11 @@ def oracle_module(code: str, kind: str, minor: int) -> list[tuple[dict, str]]:
             return [({"oracle": "unparsable-in-every-version"}, err)]
         return [({"oracle": "grammar", "target": target}, f"does not parse with feature_version=(3,{minor}) but does with the newest grammar: {err}")]
     tree = ast.parse(code)
-    future_annotations = any(
-        isinstance(n, ast.ImportFrom) and n.module == "__future__" and any(a.name == "annotations" for a in n.names) for n in tree.body
-    )
+    future_annotations, misplaced = future_import_state(tree)
+    if misplaced is not None:   # compile() refuses the module on every version, the target included: nothing of it runs
+        out.append(({"oracle": "future_import_misplaced", "target": target},
+                    f"line {misplaced}: `from __future__ import …` after other statements: SyntaxError (from __future__ imports must occur at "
+                    f"the beginning of the file) when the module is compiled, on Python {target} as on every version"))
     for n in ast.walk(tree):
         if isinstance(n, ast.ImportFrom) and n.level == 0 and n.module and is_stdlib(n.module):
             for a in n.names:
@@ -140,18 +166,36 @@ def oracle_module(code: str, kind: str, minor: int) -> list[tuple[dict, str]]:
                     (isinstance(n.func, ast.Name) and n.func.id in dc_field) or ast.unparse(n.func) == "dataclasses.field"):
                 out.append(({"oracle": "kw_only_field", "target": target}, f"`{ast.unparse(n)[:80]}`: dataclasses.field(kw_only=…) needs Python 3.10"))
                 break
-    if minor < 10:
-        lazy: set[int] = set()  # annotation sub-trees that are never evaluated
-        if future_annotations and kind not in RUNTIME_ANNOTATION_KINDS:
-            for n in ast.walk(tree):
-                if isinstance(n, ast.ClassDef):
-                    for st in n.body:
-                        if isinstance(st, ast.AnnAssign):
-                            lazy.update(id(x) for x in ast.walk(st.annotation))
+    if minor < 10 and misplaced is None:
+        # annotation positions (class-body AnnAssign, function signatures): the interpreter evaluates them when the class body /
+        # the def runs unless the module has an EFFECTIVE `from __future__ import annotations`; pydantic and msgspec resolve the
+        # strings themselves when the class is created. Everything else (alias values, functional TypedDict calls) is an expression.
+        ann: set[int] = set()
         for n in ast.walk(tree):
-            if isinstance(n, ast.BinOp) and isinstance(n.op, ast.BitOr) and id(n) not in lazy:
-                out.append(({"oracle": "pep604_runtime", "target": target}, f"`{ast.unparse(n)}` is evaluated at run time; X | Y on types needs Python 3.10"))
-                break
+            if isinstance(n, ast.ClassDef):
+                for st in n.body:
+                    if isinstance(st, ast.AnnAssign):
+                        ann.update(id(x) for x in ast.walk(st.annotation))
+        seen_how: set[str] = set()
+        for n in ast.walk(tree):
+            if isinstance(n, ast.BinOp) and isinstance(n.op, ast.BitOr):
+                if id(n) in ann:
+                    if not future_annotations:
+                        how = "no-future-import"
+                    elif kind in RUNTIME_ANNOTATION_KINDS:
+                        how = "library"
+                    else:
+                        continue   # kept as a string, never evaluated
+                else:
+                    how = "expression"
+                if how in seen_how:
+                    continue
+                seen_how.add(how)
+                why = {"no-future-import": "is evaluated when the class body runs: the module has no effective `from __future__ import annotations`",
+                       "library": f"is resolved by {kind.split('.')[0]} when the class is created",
+                       "expression": "is an expression evaluated at run time"}[how]
+                out.append(({"oracle": "pep604_runtime", "target": target, "evaluated": how, "future_import": future_annotations},
+                            f"`{ast.unparse(n)}` {why}; X | Y on types needs Python 3.10"))
     return out
 
 
@@ -462,7 +506,10 @@ def search_dispatch(ck: Check) -> None:
         kw_first = kw_first or ck.driver.run(["version.refutekw"])[0].startswith("ok ")
     except Exception:  # noqa: BLE001
         pass
-    for hook in ([c19_kw.search_kw, search] if kw_first else [search, c19_kw.search_kw]):
+    hdr_first = any(t in ck.broken for t in ("header_flow_reviewed", "future_import_survives_header", "header_code_future_misplaced")) or any(
+        "header flow" in d.campaign for d in ck.disagreements)
+    for hook in ([c19_hdr.search_headers] if hdr_first else []) + ([c19_kw.search_kw, search] if kw_first else [search, c19_kw.search_kw]) + (
+            [] if hdr_first else [c19_hdr.search_headers]):
         hook(ck)
         if ck.failures:
             return
@@ -477,6 +524,9 @@ def rerun(ck: Check, inp: dict) -> None:
     camp = ck.campaign("replay")
     if inp.get("kind") == "cli_guard":
         campaign_cli_guard(ck)
+        return
+    if inp.get("kind") == "header":
+        c19_hdr.rerun(ck, camp, inp)
         return
     if inp.get("kind") == "sequence":
         seq = inp["cases"]
@@ -504,6 +554,7 @@ def run(ck: Check) -> None:
     quick = ck.tier == "quick"
     ck.translate("Versions", versions.generate())
     ck.translate("KwSites", kwsites.generate())
+    ck.translate("HeaderFlow", headerflow.generate())
     ck.prove()
     ck.assumptions += [
         "only Python 3.12 is installed: what 3.9/3.10/3.11/3.13 provide is an authored table (Lean: Model/Version.lean, Python: PY_SINCE), "
@@ -518,6 +569,8 @@ def run(ck: Check) -> None:
     campaign_cli_guard(ck)
     campaign_e2e(ck, 25 if quick else 250, 5 if quick else 50)
     campaign_sequences(ck, 3 if quick else 9, 2 if quick else 8)
+    c19_hdr.campaign_headers(ck, 2 if quick else 12)
+    c19_hdr.campaign_flow(ck, 12 if quick else 120)
     c19_kw.campaign_sites(ck)
     c19_kw.campaign_kw_flow(ck, 15 if quick else 150)
     ck.search_hooks.append(search_dispatch)
